@@ -4,7 +4,7 @@ import contracts
 import rules_c02
 from mirlite import callee, callee_res, ty_str
 from expr import show, walk, strip_ref
-from discharge import make_prover, CONTRACTED, INDEX, LEN_CALLS
+from discharge import make_prover, CONTRACTED, INDEX, LEN_CALLS, unq
 
 EXPLANATION = (
     "Structural rules on every framing implementation of deserialize_tagged (trait default and the raw-bytes override) "
@@ -142,9 +142,12 @@ def framing(chk, crates):
                 continue
             lbb, lt = lend[0]
             vbb, vt = vald[0]
-            arg = strip_ref(vx.operand(vt["args"][0], vbb))
+            arg = strip_ref(unq(vx.operand(vt["args"][0], vbb)))
             good = False
             why = show(arg)[:120]
+            # `&payload[..length]` or the payload of `payload.get(..length)` (total: no guard needed)
+            if arg[0] == "proj" and arg[1][0] == "call" and arg[1][1].endswith("<impl [T]>::get") and tuple(arg[2]) == ("@Some", "0"):
+                arg = ("call", INDEX[0], arg[1][2])
             if arg[0] == "call" and arg[1] in INDEX:
                 base, rng = strip_ref(arg[2][0]), strip_ref(arg[2][1])
                 if rng[0] == "agg" and rng[1].endswith("RangeTo::RangeTo"):
@@ -160,21 +163,26 @@ def framing(chk, crates):
             rems = contracts.ok_remainders(pr)
             okr = len(rems) == 1
             if okr:
-                rem = strip_ref(rems[0][1])
+                rem = strip_ref(unq(rems[0][1]))
                 okr = False
+                if rem[0] == "proj" and rem[1][0] == "call" and rem[1][1].endswith("<impl [T]>::get") and tuple(rem[2]) == ("@Some", "0"):
+                    rem = ("call", INDEX[0], rem[1][2])
                 if rem[0] == "call" and rem[1] in INDEX:
                     base, rng = strip_ref(rem[2][0]), strip_ref(rem[2][1])
                     if rng[0] == "agg" and rng[1].endswith("RangeFrom::RangeFrom"):
                         st = rng[2][0]
                         p_ok = base[0] == "proj" and base[1][0] == "call" and base[1][3] == lbb and tuple(base[2]) == ("@Ok", "0", "1")
-                        s_ok = False
-                        if st[0] == "bin" and st[1] == "Sub":
-                            a, b_ = st[2], st[3]
-                            a_ok = a[0] == "proj" and a[1][0] == "call" and a[1][3] == lbb and tuple(a[2]) == ("@Ok", "0", "0")
-                            b_ok = b_[0] == "call" and b_[1] in LEN_CALLS and strip_ref(b_[2][0])[0] == "proj" and \
-                                strip_ref(b_[2][0])[1][0] == "call" and strip_ref(b_[2][0])[1][3] == vbb and \
-                                tuple(strip_ref(b_[2][0])[2]) == ("@Ok", "0", "1")
-                            s_ok = a_ok and b_ok
+                        # start == announced length - len(decoder's own remainder), as linear forms (so
+                        # `length - r.len()`, `view.len() - r.len()` and a named temporary are the same thing)
+                        from discharge import Lin, len_of
+                        length_e = ("proj", ("call", "zvt_builder::length::Length::deserialize", tuple(vx.operand(a_, lbb) for a_ in lt["args"]),
+                                             lbb, tuple(ty_str(x) for x in lt["f"]["a"])), ("@Ok", "0", "0"))
+                        dec_rem = ("proj", ("call", "zvt_builder::encoding::Encoding::decode", tuple(vx.operand(a_, vbb) for a_ in vt["args"]),
+                                            vbb, tuple(ty_str(x) for x in vt["f"]["a"])), ("@Ok", "0", "1"))
+                        want = pr.lin(length_e).add(len_of(pr, ("ref", dec_rem)), -1)
+                        got = pr.lin(st)
+                        diff = got.add(want, -1)
+                        s_ok = diff.c == 0 and not any(v != 0 for v in diff.t.values())
                         okr = p_ok and s_ok
             chk.require(okr, "C14-b/remainder", inst,
                         "the remainder is %s, not &payload[length - decoder_remainder.len()..]: bytes after the announced length are not "
